@@ -549,6 +549,15 @@ func runC17(b *runner.Batch) {
 		v.gap(20)
 		v.runBlock([]*call{v.setConfigCall(1, "gap20")})
 	}
+	// two decisions side by side: X is reached in the block that lies exactly 20 blocks after Y's last vote, and Y's
+	// next vote follows in that same block, after the transaction that decided X. Y's ballot is still alive there
+	// (seeded change C17-9: the clean-up after a decision sweeping ballots aged exactly 20 blocks)
+	if v.threshold() == 2 {
+		v.runBlock([]*call{v.setConfigCall(0, "sideY"), v.setConfigCall(0, "sideX")})
+		v.gap(20)
+		v.runBlock([]*call{v.setConfigCall(1, "sideX"), v.setConfigCall(1, "sideY")})
+		b.Hit("decision-next-to-a-ballot-aged-exactly-20-blocks")
+	}
 	// candidate removes itself: no vote needed
 	{
 		k := candKeys[1]
